@@ -24,6 +24,9 @@ const modelPkg = "ingest/model"
 
 func runC18(c *Ctx) {
 	c.Trust("go/ssa", "libp2p core/record")
+	// what is sealed is what was given: empty fields are written, so they read back as empty rather than absent
+	wireNamesAsReference(c, "C18.H3-wire-names", "ingest/model.IngestRequest")
+	c.Floor("C18.H3-wire-names", 1)
 	type reader struct {
 		fn       string
 		recType  string
@@ -343,6 +346,31 @@ func c18TypedReader(c *Ctx, f *Fn, recType, idField, domainName string) bool {
 		_, g1 := c.GuardedB(b, EqNil(Extract("1", Is(env))), true)
 		c.Check(g1, "C18.H1-signer-compared", k+" › envelope verified", ret.Pos(), "dominated by ConsumeTypedEnvelope err == nil", "record returned although the envelope did not verify")
 		_, g2 := c.GuardedB(b, Call("bytes.Equal", Field("PayloadType", Extract("0", Is(env))), AnyCall("Codec", Is(R))), true)
+		if !g2 {
+			// compared with the payload-type value itself: the global the record type's Codec method returns
+			for _, f3 := range c.FactsAt(b) {
+				m3, isEq := Match(Call("bytes.Equal", Field("PayloadType", Extract("0", Is(env))), Bind("pt")), f3.Cond)
+				if !isEq || !f3.Val {
+					continue
+				}
+				pt := strip(m3["pt"])
+				if pt == nil || pt.Op != "global" {
+					continue
+				}
+				if recType == "PeerRecord" && strings.HasSuffix(pt.Name, "peer.PeerRecordEnvelopePayloadType") {
+					g2 = true
+				}
+				if cm := c.Func(modelPkg, recType+".Codec"); cm != nil {
+					for _, cb := range cm.SSA.Blocks {
+						if cr, isRet := cb.Instrs[len(cb.Instrs)-1].(*ssa.Return); isRet && len(cr.Results) == 1 {
+							if cx := strip(c.RetX(cr, 0)); cx != nil && cx.Op == "global" && cx.Name == pt.Name {
+								g2 = true
+							}
+						}
+					}
+				}
+			}
+		}
 		rec := c.RetX(ret, 0)
 		sameRec := Same(strip(rec), strip(R)) || (strip(R) != nil && strip(rec) != nil && strip(R).Contains(func(y *X) bool { return Same(y, rec) }))
 		c.Check(g2 && sameRec, "C18.H2-domain-and-type", k+" › record type", ret.Pos(), "the envelope's sealed payload type is compared with the record's codec, and the record returned is the one consumed into", "the sealed payload type is not compared with the codec of the record returned: an envelope the provider signed for another payload type is accepted as this request")
